@@ -7,6 +7,8 @@ FAMILIES below, matched on the rejected expression):
   new  -1 & -1 folds to 4294967295, -1 | 0xffffffff to 4294967295 (32-bit identity)   key fold-bits-32bit-allones
   new  constant / variable is compiled as (1 / variable) * constant: 255 / x = 84.99999999999999 for x = 3
                                                                                    key fold-const-div-var-reciprocal
+  new  (thorough) x * 10 / 3 folds to x * 3.333333333333333 = 9.999999999999999 for x = 3 (run time: 10);
+       fix: combine the constants only if their quotient is exact          key fold-inexact-constant-quotient
   new  (thorough) x - 1e20 - .5 folds the constants first and gives 0 instead of -.5 for x = 1e20;
        no fix proposed (inherent to re-associating 16-digit decimals)   key fold-reassociation-absorbs-small-term
 
@@ -42,6 +44,7 @@ FAMILIES = {
     "fold-absorbing-shortcut": "absorbing-element shortcut (x and false, x or true, x * 0, x & 0, x | 0xffffffff) drops operands that are still evaluated / type checked at run time",
     "fold-bits-32bit-allones": "& and | are folded with a 32-bit all-ones identity (e.g. -1 & -1 folds to 4294967295)",
     "fold-const-div-var-reciprocal": "constant / variable is compiled as (1 / variable) * constant (255 / 3 gives 84.99999999999999)",
+    "fold-inexact-constant-quotient": "the constants of a * / chain are divided at compile time: x * 10 / 3 becomes x * 3.333333333333333 (9.999999999999999 instead of 10 for x = 3)",
     "fold-reassociation-absorbs-small-term": "constants of a + / - chain are combined first: x - 1e20 - .5 becomes x + (-1e20 - .5) = x - 1e20, so for x = 1e20 the result is 0 instead of -.5 (16-digit decimal arithmetic is not associative)",
 }
 
@@ -86,6 +89,8 @@ def classify(ev):
             fams.add("fold-absorbing-shortcut")
         if op == "div":
             fams.add("fold-const-div-var-reciprocal")
+        if op in ("mul", "div") and len(ls) >= 3 and any(a["op"] == "div" for a in [x] + [c for c in x["a"] if c["op"] != "x"]):
+            fams.add("fold-inexact-constant-quotient")
         if op in ("add", "sub") and len(ls) >= 3 and any(v.get("t") == "num" and v["ns"] in (1, -1) and v["nx"] >= 17 for v in ls):
             fams.add("fold-reassociation-absorbs-small-term")
     walk(ev["x"])
